@@ -39,6 +39,8 @@ type lsPolicy struct {
 	checkInstr   bool // instruction effects are part of the verdict (otherwise resync silently)
 	checkIRQ     bool // dispatch decisions, IF, pushed address, IME are part of the verdict (C04/C05)
 	haltCBEither bool
+	allowSerial  bool                     // instructions may access FF00-FF02
+	onInstr      func(exp *refcpu.Result) // called after every executed instruction with the reference's prediction
 }
 
 type lsStats struct {
@@ -322,7 +324,7 @@ func (rg *cpuRig) lockstep(cas *lsCase, pol lsPolicy) (st lsStats, sig string, e
 		// the dry run must not touch anything outside the allowed classes either
 		badRead := false
 		exp := refcpu.Step(r, func(a uint16) uint8 {
-			if lsPlain(a) || a < 0x8000 || a == 0xff0f {
+			if lsPlain(a) || a < 0x8000 || a == 0xff0f || a <= 0xff02 && a >= 0xff00 {
 				return m.Mp.Read(a)
 			}
 			badRead = true
@@ -347,7 +349,7 @@ func (rg *cpuRig) lockstep(cas *lsCase, pol lsPolicy) (st lsStats, sig string, e
 			return st, "", nil
 		}
 		for _, a := range exp.Acc {
-			okA := lsPlain(a.Addr) || a.Addr < 0x8000 || pol.allowIF && a.Addr == 0xff0f
+			okA := lsPlain(a.Addr) || a.Addr < 0x8000 || pol.allowIF && a.Addr == 0xff0f || pol.allowSerial && a.Addr >= 0xff00 && a.Addr <= 0xff02
 			if !okA {
 				st.End = "access-outside-allowed-memory"
 				return st, "", nil
@@ -487,6 +489,9 @@ func (rg *cpuRig) lockstep(cas *lsCase, pol lsPolicy) (st lsStats, sig string, e
 			if gi := m.Mp.Read(0xff0f) & 0x1f; gi != expIF {
 				return st, "if-changed-without-dispatch", fmt.Errorf("cycle %d: IF=%02x after instruction %s, want %02x (no dispatch happened; IF was %02x before, accesses %+v)", cyc-n, gi, name, expIF, ifr, exp.Acc)
 			}
+		}
+		if pol.onInstr != nil {
+			pol.onInstr(&exp)
 		}
 		r = got
 		haltbug = false
